@@ -27,6 +27,8 @@ func runC11(c *Ctx, r *Report) {
 	r.Doc("R-C11.6", "the worker has no exit that bypasses the accounting when the fetch fails")
 	r.Doc("R-C11.7", "the caller's timeout and concurrency reach the fetcher through every loader and constructor")
 	optionForwarding(c, r, "R-C11.7", append(loaderFetchSpecs(), constructorLoaderSpecs()...), "Timeout", "Concurrency")
+	r.Doc("R-C11.8", "nothing in the decode closure a fetch worker runs can panic on a malformed block (a panic in a worker goroutine ends the process, it is not a tolerated fault)")
+	importRules(c, r, "C12", []string{"R-C12.1", "R-C12.2", "R-C12.3", "R-C12.4"}, "R-C11.8")
 
 	r.Doc("control", "engine positive/negative controls analysed on every run")
 	lockControls(c, r, "control")
